@@ -2,3 +2,7 @@ def check_async_effect_order(run, ctx):
     pass
 def check_send_witness(run, ctx):
     pass
+def check_stats_registration(run, ctx):
+    pass
+def check_memory_store_selected(run, ctx):
+    pass
